@@ -20,6 +20,7 @@ func SimResetGlobals() {
 	info = redisStats{run_id: info.run_id}
 	infoMu.Unlock()
 	atomic.StoreInt64(&signals, 0)
+	simResetOrdinals()
 }
 
 // SimClientCount reports the size of the package-level client registry.
